@@ -59,6 +59,15 @@ def from_req(req, over=None):
     m = req.get("model") or {}
     D = req["D"]
     dyn, const = keys(req["dynamic"]), keys(req["constant"])
+    if req.get("scenario") == "history":
+        # the same windowing several times in one process (state kept between calls shows on the later ones)
+        T, p, f, dt, s = req["params"]
+        d = call = None
+        for i in range(3):
+            d, call = one(D, dyn, const, T, p, f, dt, s, 0, False)
+            if d is not None:
+                return f"call #{i + 1} in one process: {d}", call
+        return None, call
     g = lambda n, d, cap=6: ext(m, n, d, cap)
     p, f, dt, s = g("p", 2, 3), g("f", 1, 3), g("dt", 1, 3), max(0, min(3, int(str(m.get("s", 0)) or 0))) if str(m.get("s", "0")).lstrip("-").isdigit() else 0
     if over:
